@@ -75,6 +75,27 @@ def run(ctx):
     # layer W: the literal model of the body writer (proved = spec encoder, C02w) against trained_compress_chunk_nums
     from .. import litstream as L
     L.run_bodywrite(ctx, 250 if ctx.quick else 4000)
+    # runs too long for a request line (the run-length varint uses all of its 24 value bits from 2^23 + 1 repetitions
+    # on): the writer's bytes are decoded by the frozen-format decoder as a streaming loop (driver `decsum`: the spec's
+    # unit decoder iterated), count and digest of the numbers compared with the input's
+    R = (1 << 23) + 1
+    big = ["bigfmt bool 8 0 1 0*1,1*%d,0*3,1*2,0*1,1*6" % R]
+    if not ctx.quick:
+        big += ["bigfmt i32 8 0 1 7*5,0*%d,3e8*1,0*40,7*2" % (R + 4), "bigfmt u16 12 0 0 1*%d,0*2,1*1,2*1" % ((1 << 24) - 5),
+                "bigfmt bool 8 0 1 1*%d,0*1" % ((1 << 24) - 2)]
+    for line, a in zip(big, C.harness(big, timeout=1200, mem_kb=8 * 1024 * 1024)):
+        ctx.case(line, ["long-run"])
+        if not a.startswith("ok "):
+            ctx.violation("compressing a valid long-run chunk failed", line, "ok", a[:200])
+            continue
+        kv = S.parse_kv(a)
+        m = C.driver(["decsum %s %s" % (line.split(" ")[1], kv["bytes"])], timeout=600)[0] if ctx.model_ok else None
+        if m in (None, "timeout", "died"):
+            continue
+        mk = S.parse_kv(m)
+        if not m.startswith("ok ") or mk.get("n") != kv["n"] or mk.get("digest") != kv["digest"] or mk.get("rest") != "0":
+            ctx.violation("the frozen-format decoder does not accept the writer's bytes (run of >= 2^23 + 1 numbers)", line,
+                          "n=%s digest=%s rest=0" % (kv["n"], kv["digest"]), m[:200] + " :: bytes=" + kv["bytes"][:200], kind="format-nonconformance")
     # the f64-defined field widths (k, GCD field, count field) against the integer functions of the format model
     from .. import floatstream as F
     F.run(ctx, {"kinfo", "gcdbits", "countbits"})
